@@ -129,6 +129,43 @@ async def do_op(sim, request):
     raise ValueError(kind)
 
 
+async def do_reference_op(sim, request):
+    """ops that only exist as references: the textually substituted expression, parsed / evaluated"""
+    from ahbicht.expressions.expression_resolver import parse_expression_including_unresolved_subexpressions
+
+    op = request["op"]
+    if op["op"] == "parse_only":
+        return await parse_expression_including_unresolved_subexpressions(
+            op["expr"], resolve_packages=False, replace_time_conditions=False
+        )
+    return await do_op(sim, request)
+
+
+def _substituted_reference(scenario, request):
+    """
+    'every package occurrence is paired with the value produced for it': the expression in which every package is
+    textually replaced by its bracketed expression must give the same tree / the same evaluation result
+    """
+    from sim.props.c10 import PACKAGE, substitute
+
+    op = request["op"]
+    if op["op"] not in ("expand", "ahb_eval") or op.get("resolve", True) is not True and op["op"] == "ahb_eval":
+        return None
+    if not PACKAGE.search(op["expr"]):
+        return None
+    packages = request["cer"]["packages"]
+    if any(k not in packages for k, _ in PACKAGE.findall(op["expr"])):
+        return None
+    text = substitute(op["expr"], packages, True, False)
+    if op["op"] == "expand":
+        new_op = {"op": "parse_only", "expr": text}
+    else:
+        new_op = dict(op, expr=text, resolve=False)
+        new_op.pop("parts", None)
+    twin = dict(scenario, requests=[dict(r, op=new_op) if r["rid"] == request["rid"] else r for r in scenario["requests"]])
+    return solo_reference(twin, request["rid"], "sim.props.c12", "do_reference_op")
+
+
 # --------------------------------------------------------------------------------------------------- generation
 def _gen_op(rnd, rc, hints, fcs, packages, flavour="sim"):
     roll = rnd.random()
@@ -155,7 +192,16 @@ def _gen_op(rnd, rc, hints, fcs, packages, flavour="sim"):
         return {"op": "gather_mixed", "items": [[rnd.choice("av"), i] for i in range(n)]}
     if roll < 0.42:
         ast, _ = gen_valid(rnd, rnd.randint(1, 4), rc, hints, fcs)
-        return {"op": "rc_eval", "ast": ast, "expr": render(ast, rnd, "wild")}
+        op = {"op": "rc_eval", "ast": ast, "expr": render(ast, rnd, "wild")}
+        if rnd.random() < 0.15 and hints:
+            # two things are missing, in two *sequential* stages (requirement constraints are evaluated before the
+            # hints are fetched): whatever the schedule, the caller sees the first stage's error
+            base, _ = gen_valid(rnd, rnd.randint(0, 2), rc, hints, fcs, want=("rc",))
+            ast = ("and", base, ("k", rnd.choice(hints)))
+            used_rc = [k for k in keys_of(base) if k in rc]
+            op = {"op": "rc_eval", "ast": ast, "expr": render(ast, rnd, "wild"),
+                  "drop": {"rc": rnd.choice(used_rc), "hint": ast[2][1]}}
+        return op
     if roll < 0.50:
         ast, _ = gen_valid(rnd, rnd.randint(1, 3), rc, hints, fcs, want=("nfc", "fc"))
         return {"op": "fc_eval", "ast": ast, "expr": render(ast, rnd, "wild"), "text": rnd.choice([None, "x", "foo"])}
@@ -220,14 +266,11 @@ def generate(seed, tier="quick"):
             hints=hints,
             packages=packages,
         )
-        requests.append(
-            {
-                "rid": rid,
-                "start": rnd.choice([0, 0, 0, 1, 2, 7]),
-                "op": _gen_op(rnd, rc, hints, fcs, package_kinds, flavour),
-                "cer": cer,
-            }
-        )
+        op = _gen_op(rnd, rc, hints, fcs, package_kinds, flavour)
+        if op.get("drop"):
+            cer["requirement_constraints"].pop(op["drop"]["rc"], None)
+            cer["hints"].pop(op["drop"]["hint"], None)
+        requests.append({"rid": rid, "start": rnd.choice([0, 0, 0, 1, 2, 7]), "op": op, "cer": cer})
     if n_requests >= 2 and rnd.random() < 0.3:
         victim = requests[rnd.randrange(1, n_requests)]
         if rnd.random() < 0.5:
@@ -295,6 +338,7 @@ def _direct_clause(request, outcome):
 def execute(scenario):
     observed = [r for r in scenario["requests"] if not r.get("fault")]
     references = {r["rid"]: solo_reference(scenario, r["rid"], "sim.props.c12") for r in observed}
+    substituted = {r["rid"]: _substituted_reference(scenario, r) for r in observed}
     try:
         sim, outcomes = run_requests(scenario, do_op)
     except LIVENESS_ERRORS as error:
@@ -311,6 +355,20 @@ def execute(scenario):
         problem = _direct_clause(request, outcome)
         if problem:
             fail(verdict, f"pairing:{kind}", f"{rid}: {problem}")
+        expects_exception = bool(request["op"].get("drop")) or (
+            kind == "hints_direct" and request["op"].get("raise_key_error") is True
+            and any(k not in request["cer"]["hints"] for k in request["op"]["keys"])
+        )
+        if "ok" not in outcome and not expects_exception:
+            # valid expression, complete data, nothing injected into this request: there is nothing to fail
+            fail(verdict, f"unexpected-exception:{kind}", f"{rid} ({request['op'].get('expr', request['op'])}): {outcome}")
+        if substituted[rid] is not None and outcome != substituted[rid]:
+            fail(
+                verdict,
+                f"pairing:package-occurrence:{kind}",
+                f"{rid} ({request['op']['expr']} with {request['cer']['packages']}): got {dumps(outcome)[:600]} but "
+                f"the textually substituted expression gives {dumps(substituted[rid])[:600]}",
+            )
         text = dumps(outcome)
         foreign = sorted({t for t in TAG.findall(text) if t != rid})
         if foreign:
@@ -364,6 +422,8 @@ def shrink(scenario):
         op = request["op"]
         if op.get("ast"):
             for smaller in shrink_ast(to_tuple(op["ast"])):
+                if op.get("drop") and not {op["drop"]["rc"], op["drop"]["hint"]} <= set(keys_of(smaller)):
+                    continue
                 yield _with_op(scenario, index, dict(op, ast=smaller, expr=render(smaller)))
         if op.get("parts"):
             parts = [(i, to_tuple(a)) for i, a in op["parts"]]
